@@ -87,6 +87,11 @@ func (i *impl) open(qos, pre string) string {
 	}
 	i.down = d
 	i.alias = 1
+	for _, r := range i.b.LogFrom(0) {
+		if o, ok := r.Msg.(*message.DownstreamOpenRequest); ok {
+			i.alias = o.DesiredStreamIDAlias
+		}
+	}
 	i.logPos = i.b.LogLen()
 	i.acked, i.upAlias, i.idAlias, i.aliasUsed = map[string]int{}, map[int]int{}, map[int]int{}, map[string]string{}
 	return "ok"
@@ -123,6 +128,7 @@ type mergedAck struct {
 // collectAcks waits until `wantRes` results and the expected announcements have been acknowledged (or the watchdog fires)
 func (i *impl) collectAcks(h *lp.H, wantRes int, expectAny bool) string {
 	m := mergedAck{up: map[int]int{}, id: map[int]int{}}
+	before := i.lastAckID
 	take := func() {
 		recs := i.b.LogFrom(i.logPos)
 		i.logPos += len(recs)
@@ -196,11 +202,12 @@ func (i *impl) collectAcks(h *lp.H, wantRes int, expectAny bool) string {
 		}
 		return strings.Join(s, ",")
 	}
-	gap := ""
-	if m.gap {
-		gap = "!gap"
+	// how many acks carry this is the flush timer's business; what matters: ids continue strictly by one from the previous ack
+	ids := "ok"
+	if m.gap || m.first != before+1 {
+		ids = fmt.Sprintf("%d-%d!gap-after-%d", m.first, m.last, before)
 	}
-	return fmt.Sprintf("[ids=%d-%d%s up=[%s] id=[%s] res=[%s]]", m.first, m.last, gap, pairs(m.up), pairs(m.id), strings.Join(m.res, ","))
+	return fmt.Sprintf("[ids=%s up=[%s] id=[%s] res=[%s]]", ids, pairs(m.up), pairs(m.id), strings.Join(m.res, ","))
 }
 
 func (i *impl) exec(h *lp.H, op string) string {
@@ -279,7 +286,13 @@ func (i *impl) exec(h *lp.H, op string) string {
 			return false
 		}, watchdog)
 		return "meta " + strings.TrimPrefix(m.SourceNodeID, "n") + " " + rid + " ack=" + ack
-	case "kill":
+	case "kill", "killconflict":
+		if w[0] == "killconflict" {
+			// the broker first answers the resume with "conflict" (the old session is still winding down), then accepts
+			i.b.Lock()
+			i.b.ResumeCodes = []message.ResultCode{message.ResultCodeResumeRequestConflict}
+			i.b.Unlock()
+		}
 		old := i.b.Cur()
 		ev0 := i.resumedEv
 		old.Kill()
@@ -466,8 +479,10 @@ func main() {
 				do("readmeta")
 				sig += "m"
 			default:
-				if rng.Intn(3) == 0 {
-					do("kill")
+				// a transport failure while nothing is in flight towards the consumer (chunks still travelling through the old
+				// connection's queues at that moment are the broker's to resend, not the client's to keep)
+				if rng.Intn(3) == 0 && pending == 0 {
+					do([]string{"kill", "kill", "killconflict"}[rng.Intn(3)])
 					sig += "K"
 				}
 			}
